@@ -12,6 +12,7 @@ import Engeom.Driver.C15
 import Engeom.Driver.C16
 import Engeom.Driver.C17
 import Engeom.Driver.C19
+import Engeom.Driver.C13
 
 def dispatch (op : String) (args : List String) : Option String :=
   match (op.splitOn ".").head! with
@@ -30,6 +31,7 @@ def dispatch (op : String) (args : List String) : Option String :=
   | "topo" => DrvC12.handle op args
   | "series" => DrvC17.handle op args
   | "frame" | "basis" | "plane" => DrvC19.handle op args
+  | "chain" | "section" => DrvC13.handle op args
   | _ => none
 
 partial def loop (h : IO.FS.Stream) (out : IO.FS.Stream) : IO Unit := do
